@@ -1,6 +1,1234 @@
-//! C08 — stub (monitor not built yet).
-use crate::core::Ctx;
+//! C08 — RTR server answers depend on the query bytes, not on how they arrive.
+//!
+//! The real `Server::run` serves one scripted in-memory connection
+//! (`c08_io.rs`) on a current-thread tokio runtime with paused time. For one
+//! client byte stream the *reference* is the output for the stream delivered
+//! in one piece without any notification. Every other schedule
+//! (fragmentation x notify interleaving x output back-pressure) is a
+//! *candidate*: its output is cut into PDUs by the parser below, Serial
+//! Notify PDUs are checked (complete, not inside a response, not more than
+//! notifications fired) and removed, and the rest must be byte-identical to
+//! the reference. The reference itself is checked against a model written
+//! from the statement: one complete response per well-formed query in order,
+//! an Error PDU for the first malformed one.
+
+// The scripted socket and step driver live in `c08_io.rs`; declared here so
+// that `lib.rs` needs no extra line.
+#[path = "c08_io.rs"]
+pub mod io;
+
+use self::io::{
+    new_runtime, run_schedule, ConstSource, NotifyPos, Place, ReadLabel, RunOutcome, Schedule, SourceData, Step,
+};
+use crate::core::{hex, panic_location, splitmix64, Ctx, Rng, Stage, Tier};
+use rpki::resources::addr::{MaxLenPrefix, Prefix};
+use rpki::resources::asn::Asn;
+use rpki::rtr::payload::{Action, Aspa, Payload, RouteOrigin, RouterKey, Timing};
+use rpki::rtr::pdu::{ProviderAsns, RouterKeyInfo};
+use rpki::rtr::state::State;
+use serde_json::{json, Value};
+use std::collections::BTreeMap;
+use std::net::{IpAddr, Ipv4Addr, Ipv6Addr};
+use std::sync::Arc;
+
+const SESSION: u16 = 0x4242;
+const SERIAL_NOW: u32 = 5;
+const SERIAL_OLD: u32 = 4;
+
+//------------ data source ----------------------------------------------------------
+
+fn origin(addr: IpAddr, len: u8, max: u8, asn: u32) -> Payload {
+    let prefix = Prefix::new(addr, len).expect("prefix");
+    Payload::Origin(RouteOrigin::new(MaxLenPrefix::new(prefix, Some(max)).expect("maxlen"), Asn::from_u32(asn)))
+}
+
+struct SourceInfo {
+    source: ConstSource,
+    n_origins: usize,
+    n_full: usize,
+    n_diff: usize,
+}
+
+fn make_source(ready: bool) -> SourceInfo {
+    let v4a = origin(IpAddr::V4(Ipv4Addr::new(192, 0, 2, 0)), 24, 24, 64496);
+    let v4b = origin(IpAddr::V4(Ipv4Addr::new(10, 0, 0, 0)), 8, 16, 64497);
+    let v6a = origin(IpAddr::V6(Ipv6Addr::new(0x2001, 0xdb8, 0, 0, 0, 0, 0, 0)), 32, 48, 64498);
+    let key = Payload::RouterKey(RouterKey::new(
+        [0x5au8; 20].into(),
+        Asn::from_u32(64499),
+        RouterKeyInfo::new(bytes::Bytes::from_static(b"not a real subject public key info")).expect("key info"),
+    ));
+    let aspa = Payload::Aspa(Aspa::new(
+        Asn::from_u32(64500),
+        ProviderAsns::try_from_iter([Asn::from_u32(64501), Asn::from_u32(64502)]).expect("providers"),
+    ));
+    let gone = origin(IpAddr::V4(Ipv4Addr::new(198, 51, 100, 0)), 24, 24, 64503);
+    let full = vec![v4a.clone(), v4b, v6a.clone(), key, aspa];
+    let diff = vec![(v4a, Action::Announce), (gone, Action::Withdraw), (v6a, Action::Announce)];
+    let data = SourceData {
+        ready,
+        state: State::from_parts(SESSION, SERIAL_NOW.into()),
+        diff_from: State::from_parts(SESSION, SERIAL_OLD.into()),
+        timing: Timing { refresh: 300, retry: 60, expire: 900 },
+        full,
+        diff,
+    };
+    let n_full = data.full.len();
+    let n_diff = data.diff.len();
+    SourceInfo { source: ConstSource(Arc::new(data)), n_origins: 3, n_full, n_diff }
+}
+
+//------------ client streams --------------------------------------------------------
+
+#[derive(Clone, Copy, Debug, PartialEq, Eq)]
+enum Kind {
+    Reset,
+    SerialCurrent,
+    SerialOld,
+    SerialUnknown,
+    /// Header-shaped but not an acceptable query.
+    Malformed,
+    /// An Error PDU sent by the client.
+    ClientError,
+    Garbage,
+}
+
+#[derive(Clone, Debug)]
+struct Item {
+    tag: String,
+    bytes: Vec<u8>,
+    kind: Kind,
+    version: u8,
+}
+
+fn header(version: u8, typ: u8, session: u16, len: u32) -> Vec<u8> {
+    let mut v = vec![version, typ];
+    v.extend_from_slice(&session.to_be_bytes());
+    v.extend_from_slice(&len.to_be_bytes());
+    v
+}
+
+fn reset(version: u8) -> Item {
+    Item { tag: format!("RQv{}", version), bytes: header(version, 2, 0, 8), kind: Kind::Reset, version }
+}
+
+fn serial(version: u8, which: &str) -> Item {
+    let (session, ser, kind) = match which {
+        "cur" => (SESSION, SERIAL_NOW, Kind::SerialCurrent),
+        "old" => (SESSION, SERIAL_OLD, Kind::SerialOld),
+        "sess" => (SESSION ^ 0x5555, SERIAL_NOW, Kind::SerialUnknown),
+        _ => (SESSION, 0x8000_0001, Kind::SerialUnknown),
+    };
+    let mut bytes = header(version, 1, session, 12);
+    bytes.extend_from_slice(&ser.to_be_bytes());
+    Item { tag: format!("SQv{}{}", version, which), bytes, kind, version }
+}
+
+/// A header with an arbitrary type / length field followed by `extra` bytes.
+fn odd(version: u8, typ: u8, len: u32, extra: usize) -> Item {
+    let mut bytes = header(version, typ, 0x0102, len);
+    for i in 0..extra {
+        bytes.push(0xa0 + i as u8);
+    }
+    Item { tag: format!("T{}v{}len{}+{}", typ, version, len, extra), bytes, kind: Kind::Malformed, version }
+}
+
+fn client_error(version: u8) -> Item {
+    let text = b"bye";
+    let mut bytes = header(version, 10, 2, 8 + 4 + 4 + text.len() as u32);
+    bytes.extend_from_slice(&0u32.to_be_bytes());
+    bytes.extend_from_slice(&(text.len() as u32).to_be_bytes());
+    bytes.extend_from_slice(text);
+    Item { tag: format!("ERRv{}", version), bytes, kind: Kind::ClientError, version }
+}
+
+fn garbage(bytes: Vec<u8>) -> Item {
+    Item { tag: format!("GB{}", bytes.len()), bytes, kind: Kind::Garbage, version: 0 }
+}
+
+struct Case {
+    id: String,
+    /// Item kinds only (what random streams are classified by).
+    shape: String,
+    items: Vec<Item>,
+    bytes: Vec<u8>,
+    labels: Vec<ReadLabel>,
+    ready: bool,
+    core: bool,
+}
+
+/// Labels every consumed-byte count with the place the server is in,
+/// following the way the server is documented to frame its input (8-byte
+/// header, a Serial Query of the right length has 4 more bytes). Used for
+/// the evidence and for naming a failure, never for the verdict.
+fn read_labels(stream: &[u8]) -> Vec<ReadLabel> {
+    let mut labels = Vec::with_capacity(stream.len() + 1);
+    let mut negotiated: Option<u8> = None;
+    let mut pos = 0usize;
+    let mut query = 0u8;
+    let mut closed = false;
+    while pos <= stream.len() {
+        if closed {
+            labels.push(ReadLabel { place: Place::Closed, query });
+            pos += 1;
+            continue;
+        }
+        labels.push(ReadLabel { place: Place::Idle, query });
+        let rest = &stream[pos..];
+        for i in 1..8.min(rest.len() + 1) {
+            if pos + i <= stream.len() {
+                labels.push(ReadLabel { place: Place::Header(i as u8), query });
+            }
+        }
+        if rest.len() < 8 {
+            break;
+        }
+        let version = rest[0];
+        let typ = rest[1];
+        let len = u32::from_be_bytes([rest[4], rest[5], rest[6], rest[7]]);
+        pos += 8;
+        let version_ok = match negotiated {
+            Some(v) => v == version,
+            None => {
+                if version <= 2 {
+                    negotiated = Some(version);
+                    true
+                } else {
+                    false
+                }
+            }
+        };
+        if version_ok && typ == 1 && len == 12 {
+            for i in 0..4 {
+                if pos + i <= stream.len() {
+                    labels.push(ReadLabel { place: Place::Payload(i as u8), query });
+                }
+            }
+            if stream.len() < pos + 4 {
+                break;
+            }
+            pos += 4;
+        } else if version_ok && typ == 10 {
+            closed = true;
+        }
+        query = query.saturating_add(1);
+    }
+    while labels.len() < stream.len() + 1 {
+        labels.push(ReadLabel { place: Place::Closed, query });
+    }
+    labels.truncate(stream.len() + 1);
+    labels
+}
+
+fn make_case(items: Vec<Item>, ready: bool, core: bool) -> Case {
+    let mut bytes = Vec::new();
+    for it in &items {
+        bytes.extend_from_slice(&it.bytes);
+    }
+    let mut id = items.iter().map(|i| i.tag.clone()).collect::<Vec<_>>().join(",");
+    if !ready {
+        id.push_str("(source-not-ready)");
+    }
+    let shape = items
+        .iter()
+        .map(|i| format!("{:?}{}", i.kind, if i.kind == Kind::Garbage || i.kind == Kind::Malformed { String::new() } else { format!("v{}", i.version) }))
+        .collect::<Vec<_>>()
+        .join(",");
+    let labels = read_labels(&bytes);
+    Case { id, shape, items, bytes, labels, ready, core }
+}
+
+fn core_cases() -> Vec<Case> {
+    let c = |items: Vec<Item>| make_case(items, true, true);
+    vec![
+        c(vec![reset(1), serial(1, "cur")]),
+        c(vec![serial(0, "old"), reset(0)]),
+        c(vec![reset(2), serial(2, "sess"), serial(2, "old")]),
+        c(vec![reset(1), odd(1, 5, 8, 0), serial(1, "cur")]),
+        c(vec![reset(1), reset(0), reset(1)]),
+        c(vec![serial_with_len(1, 16), reset(1)]),
+        c(vec![serial(2, "cur"), client_error(2), reset(2)]),
+        c(vec![reset(3), reset(1)]),
+        c(vec![garbage(vec![0xde, 0xad, 0xbe, 0xef, 0x01]), reset(1)]),
+        c(vec![odd(0, 2, 12, 4), serial(0, "cur")]),
+        // ---- thorough only from here
+        c(vec![serial(1, "ser"), reset(1), serial(1, "cur"), reset(1)]),
+        c(vec![reset(1), garbage(vec![0x01, 0x02, 0x00])]),
+        c(vec![odd(1, 1, 8, 4), reset(1)]),
+        c(vec![odd(1, 42, 12, 4), reset(1)]),
+        c(vec![reset(2), serial(2, "old"), serial(2, "cur"), serial(2, "old")]),
+        c(vec![reset(200), serial(200, "cur")]),
+        make_case(vec![reset(1), serial(1, "cur")], false, true),
+        c(vec![serial(1, "old")]),
+        c(vec![reset(1)]),
+        c(vec![client_error(1)]),
+        c(vec![reset(1), serial(2, "cur"), reset(1)]),
+        c(vec![serial(0, "cur"), odd(0, 3, 8, 0), serial(0, "old")]),
+        c(vec![garbage((0u8..20).map(|i| i.wrapping_mul(37).wrapping_add(3)).collect())]),
+        c(vec![reset(2), reset(2), reset(2), reset(2)]),
+        c(vec![odd(1, 1, 0, 0), serial(1, "cur")]),
+        c(vec![odd(2, 255, 0xffff_ffff, 3), reset(2)]),
+    ]
+}
+
+/// A Serial Query (header + 4 bytes) whose length field is not 12.
+fn serial_with_len(version: u8, len: u32) -> Item {
+    let mut it = serial(version, "cur");
+    it.bytes[4..8].copy_from_slice(&len.to_be_bytes());
+    it.kind = Kind::Malformed;
+    it.tag = format!("SQv{}len{}", version, len);
+    it
+}
+
+fn random_item(rng: &mut Rng, version: u8) -> Item {
+    match rng.below(16) {
+        0 | 1 | 2 => reset(version),
+        3 | 4 => serial(version, "cur"),
+        5 | 6 => serial(version, "old"),
+        7 => serial(version, "sess"),
+        8 => serial(version, "ser"),
+        9 => {
+            // wrong-length query
+            let typ = if rng.bool() { 1 } else { 2 };
+            let len = *rng.pick(&[0u32, 7, 9, 12, 8, 16, 20, 0x0100_0008]);
+            let len = if (typ == 1 && len == 12) || (typ == 2 && len == 8) { len + 4 } else { len };
+            odd(version, typ, len, rng.usize_below(6))
+        }
+        10 => reset(*rng.pick(&[3u8, 4, 127, 255])),
+        11 => {
+            // version switch (or the same version again: then it is an ordinary query)
+            let v = rng.below(3) as u8;
+            if rng.bool() {
+                reset(v)
+            } else {
+                serial(v, "cur")
+            }
+        }
+        12 => odd(version, *rng.pick(&[0u8, 3, 4, 5, 6, 7, 8, 9, 11, 12, 42, 255]), *rng.pick(&[8u32, 12, 20, 0]), rng.usize_below(5)),
+        13 => client_error(version),
+        _ => {
+            let n = rng.range(1, 20) as usize;
+            garbage(rng.bytes(n))
+        }
+    }
+}
+
+fn random_case(seed: u64, index: u64) -> Case {
+    let mut rng = Rng::derive(seed, &["C08", "stream"], &[index]);
+    let version = rng.below(3) as u8;
+    let n = rng.range(1, 4);
+    let mut items = Vec::new();
+    for i in 0..n {
+        // bias the first item towards something that negotiates a version
+        if i == 0 && rng.chance(2, 3) {
+            items.push(if rng.bool() { reset(version) } else { serial(version, *rng.pick(&["cur", "old", "sess"])) });
+        } else {
+            items.push(random_item(&mut rng, version));
+        }
+    }
+    let ready = !rng.chance(1, 12);
+    make_case(items, ready, false)
+}
+
+//------------ PDU parser and oracles ---------------------------------------------------
+
+#[derive(Clone, Copy, Debug)]
+struct Pdu {
+    version: u8,
+    typ: u8,
+    start: usize,
+}
+
+/// Cuts `data` into PDUs by their length fields. Returns the PDUs and the
+/// offset where parsing stopped (== data.len() if everything was whole).
+fn parse_pdus(data: &[u8]) -> (Vec<Pdu>, usize) {
+    let mut pdus = Vec::new();
+    let mut pos = 0;
+    while data.len() - pos >= 8 {
+        let len = u32::from_be_bytes([data[pos + 4], data[pos + 5], data[pos + 6], data[pos + 7]]) as usize;
+        if len < 8 || data.len() - pos < len {
+            break;
+        }
+        pdus.push(Pdu { version: data[pos], typ: data[pos + 1], start: pos });
+        pos += len;
+    }
+    (pdus, pos)
+}
+
+fn describe_pdus(data: &[u8]) -> String {
+    let (pdus, end) = parse_pdus(data);
+    let mut s = String::new();
+    for p in &pdus {
+        let name = match p.typ {
+            0 => "SerialNotify",
+            3 => "CacheResponse",
+            4 => "IPv4",
+            6 => "IPv6",
+            7 => "EndOfData",
+            8 => "CacheReset",
+            9 => "RouterKey",
+            10 => "Error",
+            11 => "ASPA",
+            _ => "?",
+        };
+        if !s.is_empty() {
+            s.push(' ');
+        }
+        if p.typ == 10 {
+            let code = u16::from_be_bytes([data[p.start + 2], data[p.start + 3]]);
+            s.push_str(&format!("Error(code {})", code));
+        } else {
+            s.push_str(name);
+        }
+    }
+    if end < data.len() {
+        s.push_str(&format!(" +{} unparsable bytes", data.len() - end));
+    }
+    s
+}
+
+#[derive(Debug)]
+enum Finding {
+    /// Output after removing Serial Notify differs from the reference.
+    Differs,
+    NotifyInsideResponse,
+    NotifyIncomplete,
+    NotifyTooMany { seen: usize, fired: usize },
+}
+
+struct Stripped {
+    rest: Vec<u8>,
+    notifies: usize,
+    inside_response: bool,
+    incomplete: bool,
+}
+
+/// Removes Serial Notify PDUs from a candidate output.
+fn strip_notifies(out: &[u8]) -> Stripped {
+    let mut res = Stripped { rest: Vec::with_capacity(out.len()), notifies: 0, inside_response: false, incomplete: false };
+    let mut pos = 0;
+    let mut in_response = false;
+    while out.len() - pos >= 8 {
+        let typ = out[pos + 1];
+        let len = u32::from_be_bytes([out[pos + 4], out[pos + 5], out[pos + 6], out[pos + 7]]) as usize;
+        if typ == 0 {
+            // a Serial Notify is header + serial number
+            if len != 12 || out.len() - pos < 12 {
+                res.incomplete = true;
+                break;
+            }
+            if in_response {
+                res.inside_response = true;
+            }
+            res.notifies += 1;
+            pos += 12;
+            continue;
+        }
+        if len < 8 || out.len() - pos < len {
+            break;
+        }
+        match typ {
+            3 => in_response = true,
+            7 => in_response = false,
+            _ => {}
+        }
+        res.rest.extend_from_slice(&out[pos..pos + len]);
+        pos += len;
+    }
+    res.rest.extend_from_slice(&out[pos..]);
+    res
+}
+
+fn judge(reference: &[u8], candidate: &RunOutcome, fired: usize) -> Option<Finding> {
+    let s = strip_notifies(&candidate.out);
+    if s.incomplete {
+        return Some(Finding::NotifyIncomplete);
+    }
+    if s.rest != reference {
+        return Some(Finding::Differs);
+    }
+    if s.inside_response {
+        return Some(Finding::NotifyInsideResponse);
+    }
+    if s.notifies > fired {
+        return Some(Finding::NotifyTooMany { seen: s.notifies, fired });
+    }
+    None
+}
+
+#[derive(Default)]
+struct RefStats {
+    responses: u64,
+    cache_resets: u64,
+    error_pdus: u64,
+    modelled_items: u64,
+    /// Response PDUs whose version is not the one of the query (observation only).
+    other_version_pdus: u64,
+}
+
+/// Model oracle on the reference output. Walks the items up to the first
+/// one that is not a well-formed query; what the server does after its first
+/// Error PDU (close, resynchronise, ...) is left open.
+fn check_reference(case: &Case, info: &SourceInfo, out: &[u8], stats: &mut RefStats) -> Result<(), (&'static str, String)> {
+    let (pdus, end) = parse_pdus(out);
+    if end != out.len() {
+        return Err(("reference-output-not-whole-pdus", format!("{} trailing bytes do not form a PDU", out.len() - end)));
+    }
+    if pdus.iter().any(|p| p.typ == 0) {
+        return Err(("serial-notify-without-notification", "Serial Notify in a run without any notification".into()));
+    }
+    let mut idx = 0usize;
+    let mut negotiated: Option<u8> = None;
+    for (n, item) in case.items.iter().enumerate() {
+        let is_query = matches!(item.kind, Kind::Reset | Kind::SerialCurrent | Kind::SerialOld | Kind::SerialUnknown);
+        let expect_error = match item.kind {
+            Kind::ClientError | Kind::Garbage => return Ok(()),
+            Kind::Malformed => true,
+            _ => match negotiated {
+                Some(v) => v != item.version,
+                None => {
+                    if item.version <= 2 {
+                        negotiated = Some(item.version);
+                        false
+                    } else {
+                        true
+                    }
+                }
+            },
+        } || (is_query && !case.ready);
+        stats.modelled_items += 1;
+        let what = format!("item {} ({})", n, item.tag);
+        if expect_error {
+            return match pdus.get(idx) {
+                Some(p) if p.typ == 10 => {
+                    stats.error_pdus += 1;
+                    Ok(())
+                }
+                Some(p) => Err(("malformed-query-without-error-pdu", format!("{}: expected an Error PDU, found PDU type {}", what, p.typ))),
+                None => Err(("malformed-query-without-error-pdu", format!("{}: expected an Error PDU, output ended", what))),
+            };
+        }
+        match item.kind {
+            Kind::SerialUnknown => match pdus.get(idx) {
+                Some(p) if p.typ == 8 => {
+                    stats.cache_resets += 1;
+                    idx += 1;
+                }
+                other => {
+                    return Err(("query-without-complete-response", format!("{}: expected Cache Reset, found {:?}", what, other.map(|p| p.typ))))
+                }
+            },
+            _ => {
+                match pdus.get(idx) {
+                    Some(p) if p.typ == 3 => idx += 1,
+                    other => {
+                        return Err(("query-without-complete-response", format!("{}: expected Cache Response, found {:?}", what, other.map(|p| p.typ))))
+                    }
+                }
+                let mut payloads = 0usize;
+                let first = idx - 1;
+                loop {
+                    match pdus.get(idx) {
+                        Some(p) if matches!(p.typ, 4 | 6 | 9 | 11) => {
+                            payloads += 1;
+                            idx += 1;
+                        }
+                        Some(p) if p.typ == 7 => {
+                            idx += 1;
+                            break;
+                        }
+                        other => {
+                            return Err((
+                                "query-without-complete-response",
+                                format!("{}: response not terminated by End of Data, found {:?}", what, other.map(|p| p.typ)),
+                            ))
+                        }
+                    }
+                }
+                let (min, max) = match item.kind {
+                    Kind::Reset => (info.n_origins, info.n_full),
+                    Kind::SerialCurrent => (0, 0),
+                    _ => (1, info.n_diff),
+                };
+                if payloads < min || payloads > max {
+                    return Err(("response-payload-count", format!("{}: {} payload PDUs, source has {}..{}", what, payloads, min, max)));
+                }
+                stats.responses += 1;
+                stats.other_version_pdus += pdus[first..idx].iter().filter(|p| p.version != item.version).count() as u64;
+            }
+        }
+    }
+    if idx != pdus.len() {
+        return Err(("output-beyond-last-query", format!("{} PDUs after the response to the last query", pdus.len() - idx)));
+    }
+    Ok(())
+}
+
+//------------ schedule generators ---------------------------------------------------------
+
+use Step::{Deliver as D, Grant as G, Notify as N, Settle as S, Unlimit as U};
+
+fn sched(steps: Vec<Step>) -> Schedule {
+    Schedule { credit: None, settle_first: true, steps }
+}
+
+/// (a) + (d): one cut, notification before / at / after it.
+fn class_a(len: usize, full: bool) -> Vec<(&'static str, Schedule)> {
+    let mut v = Vec::new();
+    for c in 0..=len {
+        v.push(("a1:cut,settle,notify", sched(vec![D(c), S, N, S])));
+        if c == 0 || c == len {
+            continue;
+        }
+        v.push(("a0:cut-only", sched(vec![D(c), S])));
+        v.push(("a3:chunk+notify-same-tick", sched(vec![D(c), N, S])));
+        v.push(("a4:notify+rest-same-tick", sched(vec![D(c), S, N, D(len - c), S])));
+        if full {
+            v.push(("a2:notify+chunk-same-tick", sched(vec![N, D(c), S])));
+            v.push(("a5:rest+notify-same-tick", sched(vec![D(c), S, D(len - c), N, S])));
+            v.push(("a6:notify-after-all", sched(vec![D(c), S, D(len - c), S, N, S])));
+            v.push(("a7:double-notify", sched(vec![D(c), S, N, N, S])));
+            v.push(("a8:two-notifies", sched(vec![D(c), S, N, S, N, S])));
+            v.push(("a9:notify-before-start", Schedule { credit: None, settle_first: false, steps: vec![N, D(c), S] }));
+        }
+    }
+    v
+}
+
+/// (b): two cuts, notification in the first gap, the second, or both.
+fn class_b(len: usize) -> Vec<(&'static str, Schedule)> {
+    let mut v = Vec::new();
+    for c1 in 1..len {
+        for c2 in c1 + 1..len {
+            v.push(("b1:notify-gap1", sched(vec![D(c1), S, N, S, D(c2 - c1), S])));
+            v.push(("b2:notify-gap2", sched(vec![D(c1), S, D(c2 - c1), S, N, S])));
+            v.push(("b3:notify-both-gaps", sched(vec![D(c1), S, N, S, D(c2 - c1), S, N, S])));
+        }
+    }
+    v
+}
+
+/// (c): byte-by-byte delivery.
+fn class_c(len: usize, full: bool) -> Vec<(&'static str, Schedule)> {
+    let mut v = Vec::new();
+    let each = |f: &dyn Fn(usize) -> Vec<Step>| {
+        let mut steps = Vec::new();
+        for i in 0..len {
+            steps.extend(f(i));
+        }
+        sched(steps)
+    };
+    v.push(("c0:bytewise,notify-everywhere", each(&|_| vec![D(1), S, N, S])));
+    v.push(("c1:bytewise-only", each(&|_| vec![D(1), S])));
+    v.push(("c3:bytewise,byte+notify-same-tick", each(&|_| vec![D(1), N, S])));
+    v.push(("c4:bytewise,notify+byte-same-tick", each(&|_| vec![N, D(1), S])));
+    for p in 0..len {
+        v.push(("c2:bytewise,one-notify", each(&|i| if i == p { vec![D(1), S, N, S] } else { vec![D(1), S] })));
+    }
+    if full {
+        for k in 2..=9usize {
+            for phase in 0..k.min(3) {
+                v.push(("c5:bytewise,notify-every-k", each(&|i| if i % k == phase { vec![D(1), S, N, S] } else { vec![D(1), S] })));
+            }
+        }
+        v.push(("c6:bytewise-unsettled", each(&|_| vec![D(1)])));
+    }
+    v
+}
+
+/// (e): limited output capacity, client draining at chosen points.
+fn class_e(len: usize, out_len: usize, full: bool) -> Vec<(&'static str, Schedule)> {
+    let mut v = Vec::new();
+    let caps: Vec<usize> = if full {
+        (0..=out_len + 1).collect()
+    } else {
+        let mut c: Vec<usize> = vec![0, 1, 5, 8, 9, 12, 20, 27, 28, 29, 40, 60, 61, 93, 120];
+        c.retain(|x| *x <= out_len + 1);
+        c
+    };
+    for &cap in &caps {
+        v.push(("e0:blocked,notify,drain-all", Schedule { credit: Some(cap), settle_first: true, steps: vec![D(len), S, N, S, U, S] }));
+    }
+    let few: Vec<usize> = caps.iter().copied().filter(|c| full && c % 7 == 3 || !full && matches!(*c, 0 | 9 | 28 | 61)).collect();
+    for &cap in &few {
+        for &g in &[1usize, 7, 20] {
+            let mut steps = vec![D(len), S];
+            let rounds = if g == 1 { 24 } else { 10 };
+            for _ in 0..rounds {
+                steps.extend([N, S, G(g), S]);
+            }
+            v.push(("e1:blocked,notify-between-drains", Schedule { credit: Some(cap), settle_first: true, steps }));
+            let mut steps = vec![D(len), S];
+            for _ in 0..rounds {
+                steps.extend([G(g), N, S]);
+            }
+            v.push(("e3:drain+notify-same-tick", Schedule { credit: Some(cap), settle_first: true, steps }));
+        }
+        if len > 9 {
+            for &c in &[3usize, 8, 9] {
+                v.push((
+                    "e2:cut,blocked,notify,rest",
+                    Schedule { credit: Some(cap), settle_first: true, steps: vec![D(c), S, N, S, D(len - c), S, N, S, G(5), S, N, S, U, S] },
+                ));
+            }
+        }
+    }
+    v
+}
+
+/// (f): random schedule.
+fn random_schedule(rng: &mut Rng, len: usize) -> Schedule {
+    let credit = if rng.chance(2, 5) { Some(rng.below(130) as usize) } else { None };
+    let settle_first = !rng.chance(1, 10);
+    let p_notify = *rng.pick(&[8u64, 25, 50]);
+    let p_settle = *rng.pick(&[50u64, 85, 100]);
+    let max_chunk = *rng.pick(&[1u64, 3, 5, 12, 40]);
+    let mut steps = Vec::new();
+    let mut off = 0usize;
+    let mut guard = 0;
+    while off < len && guard < 400 {
+        guard += 1;
+        let mut acts: Vec<u8> = vec![0];
+        if rng.chance(p_notify, 100) {
+            acts.push(1);
+            if rng.chance(1, 6) {
+                acts.push(1);
+            }
+        }
+        if credit.is_some() && rng.chance(1, 3) {
+            acts.push(2);
+        }
+        rng.shuffle(&mut acts);
+        for a in acts {
+            match a {
+                0 => {
+                    let n = (rng.range(1, max_chunk) as usize).min(len - off);
+                    steps.push(D(n));
+                    off += n;
+                }
+                1 => steps.push(N),
+                _ => steps.push(G(rng.range(1, 40) as usize)),
+            }
+            if rng.chance(p_settle, 100) {
+                steps.push(S);
+            }
+        }
+    }
+    steps.push(S);
+    // a tail after the last byte: notifications and drains while the answer is written
+    for _ in 0..rng.below(6) {
+        match rng.below(3) {
+            0 => steps.push(N),
+            1 => steps.push(G(rng.range(1, 60) as usize)),
+            _ => steps.push(S),
+        }
+    }
+    Schedule { credit, settle_first, steps }
+}
+
+//------------ the monitor --------------------------------------------------------------------
+
+struct Monitor<'a> {
+    ctx: &'a mut Ctx,
+    rt: tokio::runtime::Runtime,
+    ready: SourceInfo,
+    not_ready: SourceInfo,
+    evals: u64,
+    place_counts: BTreeMap<String, u64>,
+    class_counts: BTreeMap<String, u64>,
+    attributed: BTreeMap<String, u32>,
+    ref_stats: RefStats,
+    notify_pdus_seen: u64,
+    notifies_fired: u64,
+    bound_hits: u64,
+    not_closed: u64,
+}
+
+fn cause_of(pos: &NotifyPos) -> &'static str {
+    match pos.place {
+        Place::Header(_) => "notify-while-header-partial",
+        Place::Payload(_) => "notify-while-payload-partial",
+        Place::Idle => {
+            if pos.same_tick {
+                "notify-same-tick-as-chunk"
+            } else {
+                "notify-while-idle"
+            }
+        }
+        Place::MidResponse => "notify-while-response-blocked",
+        Place::MidOtherPdu | Place::BlockedAtBoundary => "notify-while-output-blocked",
+        Place::NotStarted => "notify-before-connection-start",
+        Place::Closed => "notify-after-close",
+    }
+}
+
+fn pos_text(p: &NotifyPos, with_query: bool) -> String {
+    let mut s = p.place.name();
+    if with_query {
+        s.push_str(&format!("@q{}", p.query));
+    }
+    if p.same_tick {
+        s.push_str("+chunk");
+    }
+    s
+}
+
+impl<'a> Monitor<'a> {
+    fn info(&self, case: &Case) -> &SourceInfo {
+        if case.ready {
+            &self.ready
+        } else {
+            &self.not_ready
+        }
+    }
+
+    fn run(&mut self, case: &Case, schedule: &Schedule) -> RunOutcome {
+        let src = self.info(case).source.clone();
+        run_schedule(&self.rt, &src, &case.bytes, &case.labels, schedule)
+    }
+
+    fn detail(&self, case: &Case, schedule: &Schedule, reference: &[u8], got: &RunOutcome) -> Value {
+        json!({
+            "stream": case.id,
+            "stream_hex": hex(&case.bytes),
+            "source_ready": case.ready,
+            "schedule": schedule.to_text(),
+            "notify_positions": got.positions.iter().map(|p| pos_text(p, true)).collect::<Vec<_>>(),
+            "reference_output": describe_pdus(reference),
+            "reference_hex": hex(reference),
+            "candidate_output": describe_pdus(&got.out),
+            "candidate_hex": hex(&got.out),
+            "client_bytes_consumed": got.consumed,
+        })
+    }
+
+    /// Runs the reference and applies the model oracle. `None` if the
+    /// reference is unusable (then nothing is compared against it).
+    fn reference(&mut self, case: &Case) -> Option<Vec<u8>> {
+        let r = self.run(case, &Schedule::reference());
+        self.evals += 1;
+        if let Some(text) = &r.panic {
+            let sig = format!("C08:panic:reference:{}", panic_location(text));
+            let d = self.detail(case, &Schedule::reference(), &r.out, &r);
+            self.ctx.violation(&sig, &format!("server task panicked: {}", text), d);
+            return None;
+        }
+        if r.overflow {
+            let d = self.detail(case, &Schedule::reference(), &[], &r);
+            self.ctx.violation(
+                "C08:reference-output-runaway",
+                "server wrote more than 16 KiB in answer to a client stream of a few dozen bytes",
+                json!({"stream": d["stream"], "stream_hex": d["stream_hex"], "output_start": hex(&r.out[..r.out.len().min(200)])}),
+            );
+            return None;
+        }
+        if r.settle_bound_hit {
+            self.bound_hits += 1;
+            return None;
+        }
+        let mut stats = std::mem::take(&mut self.ref_stats);
+        let verdict = check_reference(case, self.info(case), &r.out, &mut stats);
+        self.ref_stats = stats;
+        if let Err((what, msg)) = verdict {
+            let d = self.detail(case, &Schedule::reference(), &r.out, &r);
+            self.ctx.violation(&format!("C08:{}", what), &format!("unfragmented, notification-free run: {}", msg), d);
+        }
+        if !r.dropped {
+            self.not_closed += 1;
+        }
+        let out = r.out.clone();
+        self.ctx.sample("reference", || {
+            json!({"stream": case.id, "client_hex": hex(&case.bytes), "server_output": describe_pdus(&out), "model": "one response per well-formed query, Error PDU for the first malformed one: ok"})
+        });
+        Some(r.out)
+    }
+
+    /// Finds out which single notification (or none) reproduces a mismatch
+    /// and names the violation after the server position it fired at.
+    fn attribute(&mut self, case: &Case, schedule: &Schedule, reference: &[u8], got: RunOutcome) -> (String, Schedule, RunOutcome) {
+        let k = schedule.notifies();
+        let differs = |m: &mut Self, s: &Schedule| -> Option<RunOutcome> {
+            let r = m.run(case, s);
+            if judge(reference, &r, s.notifies()).is_some() {
+                Some(r)
+            } else {
+                None
+            }
+        };
+        let bare = schedule.with_notifies(&[]);
+        let bare_result = if k == 0 { Some(got) } else { differs(self, &bare) };
+        if let Some(r) = bare_result {
+            let mut plain = bare.clone();
+            plain.credit = None;
+            plain.steps.retain(|s| !matches!(s, Step::Grant(_) | Step::Unlimit));
+            let has_backpressure = bare.credit.is_some();
+            if has_backpressure {
+                if let Some(r2) = differs(self, &plain) {
+                    return ("fragmentation-alone".into(), plain, r2);
+                }
+                return ("backpressure-alone".into(), bare, r);
+            }
+            return ("fragmentation-alone".into(), bare, r);
+        }
+        for i in 0..k.min(64) {
+            let single = schedule.with_notifies(&[i]);
+            if let Some(r) = differs(self, &single) {
+                let cause = r.positions.first().map(cause_of).unwrap_or("notify-position-unknown");
+                return (cause.into(), single, r);
+            }
+        }
+        let r = self.run(case, schedule);
+        ("notify-combination".into(), schedule.clone(), r)
+    }
+
+    fn candidate(&mut self, case: &Case, class: &str, schedule: &Schedule, reference: &[u8]) {
+        let got = self.run(case, schedule);
+        self.evals += 1;
+        *self.class_counts.entry(class[..1].to_string()).or_insert(0) += 1;
+        if schedule.has_same_tick_race() {
+            *self.class_counts.entry("d_same_tick_race(also counted in its class)".to_string()).or_insert(0) += 1;
+        }
+        let fired = schedule.notifies();
+        self.notifies_fired += fired as u64;
+        for p in &got.positions {
+            *self.place_counts.entry(p.place.name()).or_insert(0) += 1;
+            if p.same_tick {
+                *self.place_counts.entry("any_place_with_chunk_pending_in_same_tick".into()).or_insert(0) += 1;
+            }
+        }
+        self.notify_pdus_seen += strip_notifies(&got.out).notifies as u64;
+        if got.settle_bound_hit {
+            // cannot tell whether the run was complete: no verdict
+            self.bound_hits += 1;
+            return;
+        }
+        // ---- the class of this case
+        let letter = &class[..1];
+        let with_query = case.core && matches!(letter, "a" | "c" | "e");
+        let mut places: Vec<String> = if letter == "f" {
+            // random schedules are classed by the kinds of server positions that saw a notification
+            got.positions.iter().map(|p| cause_of(p)[7..].to_string()).collect()
+        } else {
+            got.positions.iter().map(|p| pos_text(p, with_query)).collect()
+        };
+        places.sort();
+        places.dedup();
+        let mut cuts: Vec<String> = Vec::new();
+        if fired == 0 && letter != "f" {
+            let mut off = 0usize;
+            for s in &schedule.steps {
+                if let Step::Deliver(n) = s {
+                    off = (off + n).min(case.bytes.len());
+                    if off < case.bytes.len() {
+                        let l = case.labels[off];
+                        cuts.push(if with_query { format!("{}@q{}", l.place.name(), l.query) } else { l.place.name() });
+                    }
+                }
+            }
+            cuts.sort();
+            cuts.dedup();
+        }
+        if fired > 0 || schedule.chunks() > 1 || schedule.credit.is_some() {
+            let cap = match schedule.credit {
+                None => "inf".to_string(),
+                Some(_) if letter == "f" => "limited".to_string(),
+                Some(c) if case.core => c.to_string(),
+                Some(c) => format!("{}..{}", c / 32 * 32, c / 32 * 32 + 31),
+            };
+            let stream = if case.core {
+                case.id.clone()
+            } else if letter == "f" {
+                format!("random stream of {} items", case.items.len())
+            } else {
+                case.shape.clone()
+            };
+            self.ctx.sig(&format!(
+                "{} | {} | notify at [{}] | cuts at [{}] | cap {}",
+                stream,
+                if letter == "f" { "f:random" } else { class },
+                places.join(" "),
+                if letter == "f" { "random".to_string() } else { cuts.join(" ") },
+                cap
+            ));
+        }
+        // ---- verdict
+        if let Some(text) = &got.panic {
+            let sig = format!("C08:panic:connection:{}", panic_location(text));
+            let d = self.detail(case, schedule, reference, &got);
+            self.ctx.violation(&sig, &format!("server task panicked: {}", text), d);
+            return;
+        }
+        let finding = judge(reference, &got, fired);
+        match finding {
+            None => {
+                if self.ctx.wants_sample(&format!("class-{}", &class[..1])) {
+                    let d = json!({
+                        "stream": case.id, "schedule": schedule.to_text(),
+                        "notify_positions": got.positions.iter().map(|p| pos_text(p, true)).collect::<Vec<_>>(),
+                        "candidate_output": describe_pdus(&got.out),
+                        "verdict": "equal to the reference after removing Serial Notify",
+                    });
+                    self.ctx.sample(&format!("class-{}", &class[..1]), || d);
+                }
+            }
+            Some(Finding::Differs) | Some(Finding::NotifyIncomplete) => {
+                // cheap pre-classification bounds the number of minimisations per kind
+                let pre = got.positions.iter().map(cause_of).min().unwrap_or("no-notify");
+                let n = self.attributed.entry(pre.to_string()).or_insert(0);
+                *n += 1;
+                if *n > 12 {
+                    self.ctx.obs("mismatches_beyond_the_first_12_of_their_kind_not_minimised", 1);
+                    return;
+                }
+                let (cause, minimal, r) = self.attribute(case, schedule, reference, got);
+                let d = self.detail(case, &minimal, reference, &r);
+                let desc = format!(
+                    "output (Serial Notify removed) differs from the unfragmented, notification-free run; smallest reproducing variant of the schedule: {} -> {} instead of {}",
+                    minimal.to_text(),
+                    describe_pdus(&r.out),
+                    describe_pdus(reference)
+                );
+                self.ctx.violation(&format!("C08:{}", cause), &desc, d);
+            }
+            Some(Finding::NotifyInsideResponse) => {
+                let d = self.detail(case, schedule, reference, &got);
+                self.ctx.violation("C08:serial-notify-inside-response", "a Serial Notify PDU sits between Cache Response and End of Data", d);
+            }
+            Some(Finding::NotifyTooMany { seen, fired }) => {
+                let d = self.detail(case, schedule, reference, &got);
+                self.ctx.violation(
+                    "C08:serial-notify-more-than-fired",
+                    &format!("{} Serial Notify PDUs for {} notifications", seen, fired),
+                    d,
+                );
+            }
+        }
+    }
+
+    fn all(&mut self, case: &Case, reference: &[u8], list: Vec<(&'static str, Schedule)>) {
+        for (class, s) in &list {
+            self.candidate(case, class, s, reference);
+        }
+    }
+}
+
+#[derive(Clone, Copy, PartialEq, Eq, Debug)]
+enum Unit {
+    A,
+    B,
+    C,
+    E,
+    F(u64),
+}
+
+/// The workload for the interpreters (Miri, valgrind): a flat list of cheap
+/// schedules, ordered so that any prefix is diverse, dealt round-robin to the
+/// shards. One schedule costs about a second under Miri.
+fn small_workload(ctx: &Ctx) -> (Vec<Case>, Vec<(usize, &'static str, Schedule)>) {
+    let c = |items: Vec<Item>| make_case(items, true, true);
+    let cases = vec![
+        c(vec![reset(1), serial(1, "cur")]),
+        c(vec![serial(0, "old"), reset(0)]),
+        c(vec![reset(2), odd(2, 5, 8, 0), serial(2, "sess")]),
+    ];
+    let mut lanes: Vec<Vec<(usize, &'static str, Schedule)>> = Vec::new();
+    for (ci, case) in cases.iter().enumerate() {
+        let len = case.bytes.len();
+        // notify at every quiescent cut position
+        lanes.push((0..=len).map(|c| (ci, "a1:cut,settle,notify", sched(vec![D(c), S, N, S]))).collect());
+        // same-tick and double-notify variants at a few cuts
+        let mut lane = Vec::new();
+        for c in [3usize, 13, 8, 18] {
+            lane.push((ci, "a3:chunk+notify-same-tick", sched(vec![D(c), N, S])));
+            lane.push((ci, "a4:notify+rest-same-tick", sched(vec![D(c), S, N, D(len - c), S])));
+            lane.push((ci, "a7:double-notify", sched(vec![D(c), S, N, N, S])));
+            lane.push((ci, "a5:rest+notify-same-tick", sched(vec![D(c), S, D(len - c), N, S])));
+            lane.push((ci, "a9:notify-before-start", Schedule { credit: None, settle_first: false, steps: vec![N, D(c), S] }));
+        }
+        lanes.push(lane);
+        // back-pressure
+        let mut lane = Vec::new();
+        for cap in [9usize, 61, 0, 28] {
+            lane.push((ci, "e0:blocked,notify,drain-all", Schedule { credit: Some(cap), settle_first: true, steps: vec![D(len), S, N, S, U, S] }));
+            lane.push((
+                ci,
+                "e2:cut,blocked,notify,rest",
+                Schedule { credit: Some(cap), settle_first: true, steps: vec![D(3), S, N, S, D(len - 3), S, N, S, G(5), S, N, S, U, S] },
+            ));
+        }
+        lanes.push(lane);
+    }
+    // random ones
+    let mut rng = Rng::derive(ctx.seed, &["C08", "schedule-small"], &[]);
+    lanes.push((0..40).map(|i| (i % cases.len(), "f:random", random_schedule(&mut rng, cases[i % cases.len()].bytes.len()))).collect());
+    // one byte-wise schedule with a notification at every position (expensive: ~10 s)
+    lanes.push(class_c(cases[0].bytes.len(), false).into_iter().filter(|(c, _)| c.starts_with("c0")).map(|(c, s)| (0, c, s)).collect());
+    let mut flat = Vec::new();
+    let mut i = 0;
+    loop {
+        let mut any = false;
+        for lane in &lanes {
+            if let Some(x) = lane.get(i) {
+                flat.push(x.clone());
+                any = true;
+            }
+        }
+        if !any {
+            break;
+        }
+        i += 1;
+    }
+    (cases, flat)
+}
+
+fn new_monitor(ctx: &mut Ctx) -> Monitor<'_> {
+    Monitor {
+        ctx,
+        rt: new_runtime(),
+        ready: make_source(true),
+        not_ready: make_source(false),
+        evals: 0,
+        place_counts: BTreeMap::new(),
+        class_counts: BTreeMap::new(),
+        attributed: BTreeMap::new(),
+        ref_stats: RefStats::default(),
+        notify_pdus_seen: 0,
+        notifies_fired: 0,
+        bound_hits: 0,
+        not_closed: 0,
+    }
+}
 
 pub fn run(ctx: &mut Ctx) {
-    ctx.notes.push("C08: monitor not built yet".into());
+    let tier = ctx.tier;
+    let stage = ctx.stage;
+    let seed = ctx.seed;
+    let full = tier == Tier::Thorough && stage == Stage::Native;
+    let mut references: BTreeMap<usize, Option<Vec<u8>>> = BTreeMap::new();
+    if stage == Stage::Miri || stage == Stage::Valgrind {
+        let (cases, flat) = small_workload(ctx);
+        let total = match tier {
+            Tier::Quick => 32,
+            Tier::Thorough => 136,
+        };
+        let mut m = new_monitor(ctx);
+        for (i, (ci, class, schedule)) in flat.iter().take(total).enumerate() {
+            if !m.ctx.mine(i as u64) {
+                continue;
+            }
+            let case = &cases[*ci];
+            if !references.contains_key(ci) {
+                let r = m.reference(case);
+                references.insert(*ci, r);
+            }
+            if let Some(Some(reference)) = references.get(ci) {
+                let reference = reference.clone();
+                m.ctx.breadcrumb(&format!("stream {} ({}), schedule {}", case.id, hex(&case.bytes), schedule.to_text()));
+                m.candidate(case, class, schedule, &reference);
+            }
+        }
+        finish(m, references.len() as u64);
+        return;
+    }
+    // ---- which streams
+    let mut cases = core_cases();
+    // (fixed streams, random streams for the enumerated classes, random streams for class f only,
+    //  longest stream that gets all pairs of cuts, random schedules in total)
+    let (n_core, n_random, n_random_f, b_max_len, f_total): (usize, u64, u64, usize, u64) = match (stage, tier) {
+        (Stage::Native, Tier::Quick) => (10, 16, 48, 20, 20_000),
+        (Stage::Native, Tier::Thorough) => (cases.len(), 240, 1_000, 44, 1_600_000),
+        _ => (cases.len(), 40, 200, 20, 40_000),
+    };
+    cases.truncate(n_core);
+    for i in 0..n_random + n_random_f {
+        cases.push(random_case(seed, i));
+    }
+    let n_enumerated = n_core + n_random as usize;
+    // ---- work units, dealt to the shards
+    let mut units: Vec<(usize, Unit)> = Vec::new();
+    for (ci, case) in cases.iter().enumerate().take(n_enumerated) {
+        units.push((ci, Unit::A));
+        units.push((ci, Unit::C));
+        units.push((ci, Unit::E));
+        if case.bytes.len() <= b_max_len {
+            units.push((ci, Unit::B));
+        }
+    }
+    let f_per_unit: u64 = 250;
+    let f_units = (f_total / f_per_unit).max(1);
+    for j in 0..f_units {
+        units.push(((j as usize) % cases.len(), Unit::F(j)));
+    }
+    let mut m = new_monitor(ctx);
+    for (ui, (ci, unit)) in units.iter().enumerate() {
+        // dealt by a hash of the index: units come in a regular a/c/e/b pattern
+        let mut x = ui as u64;
+        if !m.ctx.mine(splitmix64(&mut x) >> 8) {
+            continue;
+        }
+        let case = &cases[*ci];
+        if !references.contains_key(ci) {
+            let r = m.reference(case);
+            references.insert(*ci, r);
+        }
+        let reference = match references.get(ci).unwrap() {
+            Some(r) => r.clone(),
+            None => continue,
+        };
+        let len = case.bytes.len();
+        m.ctx.breadcrumb(&format!("stream {} ({}), unit {:?}", case.id, hex(&case.bytes), unit));
+        match unit {
+            Unit::A => {
+                m.all(case, &reference, class_a(len, full || stage == Stage::Asan));
+            }
+            Unit::B => m.all(case, &reference, class_b(len)),
+            Unit::C => {
+                m.all(case, &reference, class_c(len, full));
+            }
+            Unit::E => {
+                m.all(case, &reference, class_e(len, reference.len(), full));
+            }
+            Unit::F(j) => {
+                let mut rng = Rng::derive(seed, &["C08", "schedule"], &[*j]);
+                for _ in 0..f_per_unit {
+                    let s = random_schedule(&mut rng, len);
+                    m.candidate(case, "f:random", &s, &reference);
+                }
+            }
+        }
+    }
+    finish(m, references.len() as u64);
+}
+
+fn finish(m: Monitor<'_>, reference_runs: u64) {
+    let stage = m.ctx.stage;
+    let Monitor { ctx, evals, place_counts, class_counts, ref_stats, notify_pdus_seen, notifies_fired, bound_hits, not_closed, .. } = m;
+    ctx.evals(evals);
+    for (k, v) in &place_counts {
+        ctx.obs(&format!("notify_fired_at_{}", k), *v);
+    }
+    for (k, v) in &class_counts {
+        ctx.obs(&format!("schedules_class_{}", k), *v);
+    }
+    ctx.obs("notifications_fired", notifies_fired);
+    ctx.obs("serial_notify_pdus_seen", notify_pdus_seen);
+    ctx.obs("reference_runs", reference_runs);
+    ctx.obs("reference_responses_checked", ref_stats.responses);
+    ctx.obs("reference_cache_resets_checked", ref_stats.cache_resets);
+    ctx.obs("reference_error_pdus_checked", ref_stats.error_pdus);
+    ctx.obs("reference_items_modelled", ref_stats.modelled_items);
+    if ref_stats.other_version_pdus > 0 {
+        ctx.obs("reference_response_pdus_with_other_version_than_query", ref_stats.other_version_pdus);
+    }
+    if not_closed > 0 {
+        ctx.obs("reference_connection_still_open_after_client_eof", not_closed);
+    }
+    if bound_hits > 0 {
+        ctx.obs("runs_without_verdict_settle_bound", bound_hits);
+        ctx.notes.push(format!("{} runs did not reach a parked state within the yield bound; no verdict for them", bound_hits));
+    }
+    let header_places = (1..8).filter(|i| place_counts.contains_key(&format!("header_{}_of_8", i))).count();
+    if evals > 0 && header_places < 7 && (stage == Stage::Native) {
+        ctx.notes.push(format!("only {} of the 7 partial-header positions saw a notification in this shard", header_places));
+    }
 }
